@@ -2,12 +2,12 @@ SPECIFICATION Spec
 CONSTANTS
   Alphabet <- Alpha5
   Ranges <- Rng1
-  MaxLen = 5
+  MaxLen = 4
   Limit = 3
   Chunked = TRUE
   NoRangeLen = 3
   CodeDen <- Den1
 VIEW View
-INVARIANTS TypeOK PartsOK Partition Complete EncodeOK
+INVARIANTS TypeOK PartsOK Partition Complete EncodeOK PolyOK
 PROPERTIES JoinTotals Progress
 CHECK_DEADLOCK FALSE
